@@ -59,6 +59,7 @@ type SolveCfg struct {
 	All      bool // run all solvers to completion and compare
 	Workers  int
 	Seed     int
+	Short    func(name string) bool // obligations that get a short timeout (open known findings: reported either way)
 }
 
 func runSolver(ctx context.Context, sd solverDef, file string, timeoutS int) (status, out string, secs float64) {
@@ -121,6 +122,26 @@ func (e *Engine) Solve(obls []*Obligation, cfg SolveCfg) {
 		if os.Getenv("GOVC_NO_CM") == "" {
 			o.Hyps = append(o.Hyps, e.constMulFacts(o)...)
 		}
+		// lemma premises and checkpoints about plain arithmetic rarely need the quantified (memory) hypotheses: a
+		// first attempt without them is sound (fewer hypotheses) and usually immediate
+		if o.Kind == "apply" && !o.Cover {
+			var light []*Term
+			qc := map[*Term]bool{}
+			for _, h := range o.Hyps {
+				if !hasQuant(h, qc) {
+					light = append(light, h)
+				}
+			}
+			lf := filepath.Join(cfg.Dir, fmt.Sprintf("q%04d_light.smt2", i))
+			os.WriteFile(lf, []byte(e.tb.Script(light, o.Goal, true, false)), 0o644)
+			lc := cfg
+			lc.TimeoutS = 6
+			if r := solveOne(lf, lc); r.Status == "unsat" {
+				r.Phase = "light"
+				o.Result = r
+				continue
+			}
+		}
 		tq := time.Now()
 		qfh := e.PrepareQF(o)
 		if os.Getenv("GOVC_TIMING") != "" && time.Since(tq) > 300*time.Millisecond {
@@ -149,6 +170,10 @@ func (e *Engine) Solve(obls []*Obligation, cfg SolveCfg) {
 				if j.o.Cover && c1.TimeoutS > 4 {
 					c1.TimeoutS = 4 // vacuity guards only need to fail to be refuted quickly
 				}
+				cfgJ := cfg
+				if cfg.Short != nil && cfg.Short(j.o.Name) && cfg.TimeoutS > 10 {
+					c1.TimeoutS, cfgJ.TimeoutS = 10, 10
+				}
 				if j.o.Cover || j.full == "" {
 					r := solveOne(j.qf, c1)
 					r.Phase = "qf-inst"
@@ -170,10 +195,10 @@ func (e *Engine) Solve(obls []*Obligation, cfg SolveCfg) {
 				startFull := func() {
 					if !fullStarted {
 						fullStarted = true
-						go func() { ch2 <- pr{solveOneCtx(jctx, j.full, cfg), "quantified"} }()
+						go func() { ch2 <- pr{solveOneCtx(jctx, j.full, cfgJ), "quantified"} }()
 					}
 				}
-				delay := time.After(time.Duration(cfg.TimeoutS) * time.Second / 4)
+				delay := time.After(time.Duration(cfgJ.TimeoutS) * time.Second / 4)
 				var r *SolveResult
 				for r == nil {
 					select {
